@@ -7,4 +7,5 @@ pub mod ciphers;
 pub mod h_block;
 pub mod h_stream;
 pub mod h_cts;
+pub mod h_misc;
 pub mod table;
